@@ -783,11 +783,16 @@ pub fn t_pipe(rng: &mut Rng, profile: &'static str, run_seed: u64, miri: bool, t
             prog.checkpoint_hold = Some(h);
             t0.push(TAct::Consume(0, k));
             t0.push(TAct::Checkpoint);
+            // sometimes the consumer changes the depth while the producer is (probably) throttled, then reads on
+            if rng.chance(1, 2) { t0.push(TAct::SetDepth(0, rng.range(1, 5) as usize)); }
             t0.push(TAct::Consume(0, if close { usize::MAX } else { n_items - k }));
         } else if close {
             // sometimes read slowly in chunks so that the producer is throttled first
             let mut left = n_items;
-            while left > 0 && rng.chance(1, 2) { let c = rng.range(1, left as u64) as usize; t0.push(TAct::Consume(0, c)); left -= c; }
+            while left > 0 && rng.chance(1, 2) {
+                let c = rng.range(1, left as u64) as usize; t0.push(TAct::Consume(0, c)); left -= c;
+                if rng.chance(1, 3) { t0.push(TAct::SetDepth(0, rng.range(1, 5) as usize)); }
+            }
             t0.push(TAct::Consume(0, usize::MAX));
         } else {
             t0.push(TAct::Consume(0, n_items));
@@ -938,7 +943,7 @@ pub fn validate(prog: &Program) -> Result<(), String> {
                 TAct::Resume(o, _) | TAct::HandResumer(o) => { open_res.retain(|x| x != o); }
                 TAct::ReleaseMortal | TAct::PanicRelease => { if nb_only { return Err(format!("thread {} drops its owner inside a non-blocking window", t)); } released = true; }
                 TAct::PipeCreate(_) | TAct::Consume(..) => { if nb_only { return Err("pipe act in non-blocking window".into()); } }
-                TAct::DropStream(_) | TAct::Push(_) | TAct::Attempt(..) | TAct::AttemptJoin(_) | TAct::Stash(_) | TAct::WaitStart(_) | TAct::WaitRet(_) | TAct::WaitInv(_) | TAct::WaitResolved(_) | TAct::StashStream(_) | TAct::Checkpoint | TAct::FireStashedWakers => {}
+                TAct::DropStream(_) | TAct::Push(_) | TAct::Attempt(..) | TAct::AttemptJoin(_) | TAct::Stash(_) | TAct::WaitStart(_) | TAct::WaitRet(_) | TAct::WaitInv(_) | TAct::WaitResolved(_) | TAct::StashStream(_) | TAct::SetDepth(..) | TAct::Checkpoint | TAct::FireStashedWakers => {}
             }
         }
         if !open_fs.is_empty() || !open_res.is_empty() { return Err(format!("thread {} ends with open future_sync/resumer", t)); }
